@@ -92,6 +92,7 @@ type Stats struct {
 	Ranges        int      // ranges judged in the tree
 	ErrChain      []string // messages along the error chain, outermost first
 	ErrDepth      int
+	LocChecked    int
 	ErrEnd        int  // End of the outermost error range
 	NonASCIIDigit bool // a date / decimal leaf holds non-ASCII Unicode digits (observation only)
 	Gaps          []string
@@ -153,8 +154,37 @@ func judgeError(text string, err error, st *Stats) *Finding {
 		if loc.Line < 1 || loc.Col < 1 {
 			return finding("error-location-not-positive", "Range.Location() of %q = %d:%d", de.Message, loc.Line, loc.Col)
 		}
+		// "position lies inside the input": the rendered line exists in the text, and when the
+		// end offset falls on a character boundary, line and column are the ones of that offset
+		// (own count: newlines before the offset, characters since the last newline)
+		nl := strings.Count(text, "\n")
+		if loc.Line > nl+1 {
+			return finding("error-location-outside-text", "Range.Location() of %q = %d:%d, the text has %d lines", de.Message, loc.Line, loc.Col, nl+1)
+		}
+		onBoundary := de.End == len(text)
+		for pos := range text {
+			if pos == de.End {
+				onBoundary = true
+				break
+			}
+			if pos > de.End {
+				break
+			}
+		}
+		if onBoundary && de.End < len(text) {
+			head := text[:de.End]
+			wantLine := 1 + strings.Count(head, "\n")
+			wantCol := 1 + utf8.RuneCountInString(head[strings.LastIndexByte(head, '\n')+1:])
+			if loc.Line != wantLine || loc.Col != wantCol {
+				return finding("error-location-wrong", "Range.Location() of %q (end offset %d) = %d:%d, the offset is at %d:%d", de.Message, de.End, loc.Line, loc.Col, wantLine, wantCol)
+			}
+			st.LocChecked++
+		}
 		if depth == 0 && rendered == "" {
 			return finding("error-renders-empty", "Error() of the outermost error is empty")
+		}
+		if depth == 0 && !strings.Contains(rendered, loc.String()) {
+			return finding("error-render-without-position", "Error() = %q does not contain the position %s", truncStr(rendered, 200), loc)
 		}
 		cur = de.Wrapped
 	}
@@ -543,4 +573,11 @@ func ErrorClass(msg string) string {
 		b.WriteString("_")
 	}
 	return b.String()
+}
+
+func truncStr(s string, n int) string {
+	if len(s) > n {
+		return s[:n] + "..."
+	}
+	return s
 }
